@@ -263,8 +263,27 @@ def m_bitcount(I, st, fr, args, path, gargs, t):
         else:
             r = bin(v).count('1')
         return K(r, 'u32')
+    X = st.norm(args[0].p)
+    if path.endswith('trailing_zeros'):
+        # interned term tz(x): `x >> x.trailing_zeros()` is recognised as the odd part of x
+        a = st.atoms.get(('tz', pfreeze(X), bits))
+        nz = 0 not in st.sign(X)
+        b = (0, bits - 1 if nz else bits)
+        if lo >= 0 and hi > 0:
+            b = (0, min(b[1], hi.bit_length() - 1 if nz else bits))
+        old = st.bounds.get(a)
+        if old is not None:
+            b = (max(b[0], old[0]), min(b[1], old[1]))
+        st._jset('bounds', a, b)
+        return Int('u32', b[0], b[1], patom(a))
     if path.endswith('leading_zeros') and lo >= 0:
-        return st.fresh('u32', bits - hi.bit_length(), bits - lo.bit_length(), 'lz')
+        a = st.atoms.get(('lz', pfreeze(X), bits))
+        b = (bits - hi.bit_length(), bits - lo.bit_length())
+        old = st.bounds.get(a)
+        if old is not None:
+            b = (max(b[0], old[0]), min(b[1], old[1]))
+        st._jset('bounds', a, b)
+        return Int('u32', b[0], b[1], patom(a))
     return st.fresh('u32', 0, bits, 'bitcount')
 
 
@@ -740,3 +759,259 @@ def m_option_eq(I, st, fr, args, path, gargs, t):
     if isinstance(x, Int) and isinstance(y, Int):
         return I.compare(st, 'Ne' if neg else 'Eq', x, y)
     raise Stop('Option eq payload %r %r' % (x, y))
+
+
+# ----------------------------------------------------------------------------- further core combinators (robustness against refactorings)
+@model(r'core::num::<impl ' + INT + r'>::checked_(neg|abs)')
+def m_checked_neg(I, st, fr, args, path, gargs, t):
+    m = re.match(r'core::num::<impl ' + INT + r'>::checked_(neg|abs)', path)
+    ty, op = m.group(1), m.group(2)
+    x = args[0]
+    rlo, rhi = INT_RANGES[ty]
+    if op == 'abs' and I.sign_split(st, x.p) > 0:
+        return some(x)
+    p = pneg(x.p)
+    if range_split(st, p, rlo, rhi) == 'in':
+        return some(I.mk(st, ty, p))
+    st.note(('overflows', pfreeze(st.norm(p)), ty))
+    return none()
+
+
+@model(r'core::num::<impl ' + INT + r'>::checked_(div|rem|div_euclid|rem_euclid)')
+def m_checked_divrem(I, st, fr, args, path, gargs, t):
+    m = re.match(r'core::num::<impl ' + INT + r'>::checked_(div|rem|div_euclid|rem_euclid)', path)
+    ty, op = m.group(1), m.group(2)
+    a, b = args
+    if 'euclid' in op:
+        if 0 in st.sign(b.p):
+            if st.decide(b.p, [ZERO, NONZERO]) == 0:
+                return none()
+        return some(_euclid(I, st, op, a, b, ty))
+    if 0 in st.sign(b.p):
+        if st.decide(b.p, [ZERO, NONZERO]) == 0:
+            return none()
+    rlo, rhi = INT_RANGES[ty]
+    if rlo < 0 and st.in_range(a.p, rlo + 1, rhi) is not True and 0 in st.sign(padd(b.p, pconst(1))):
+        k = st.choose(2)
+        if k == 1:
+            st.assume(padd(a.p, pconst(rlo), -1), ZERO)
+            st.assume(padd(b.p, pconst(1)), ZERO)
+            return none()
+    return some(I.divrem(st, 'Div' if op == 'div' else 'Rem', a, b, ty))
+
+
+@model(r'core::num::<impl ' + INT + r'>::(overflowing)_(add|sub|mul)')
+def m_overflowing(I, st, fr, args, path, gargs, t):
+    m = re.match(r'core::num::<impl ' + INT + r'>::overflowing_(add|sub|mul)', path)
+    ty, op = m.group(1), m.group(2).capitalize()
+    p = I.arith_poly(st, op, args[0], args[1])
+    rlo, rhi = INT_RANGES[ty]
+    r = range_split(st, p, rlo, rhi)
+    if r == 'in':
+        return Agg('tuple', None, (I.mk(st, ty, p), K(0, 'bool')))
+    return Agg('tuple', None, (st.fresh(ty, tag='ovf'), K(1, 'bool')))
+
+
+@model(r'core::num::<impl ' + INT + r'>::saturating_(add|mul)')
+def m_saturating(I, st, fr, args, path, gargs, t):
+    m = re.match(r'core::num::<impl ' + INT + r'>::saturating_(add|mul)', path)
+    ty, op = m.group(1), m.group(2).capitalize()
+    p = I.arith_poly(st, op, args[0], args[1])
+    rlo, rhi = INT_RANGES[ty]
+    r = range_split(st, p, rlo, rhi)
+    if r == 'in':
+        return I.mk(st, ty, p)
+    return K(rlo if r == 'below' else rhi, ty)
+
+
+@model(r'core::num::<impl ' + INT + r'>::(min_value|max_value)')
+def m_minmax_value(I, st, fr, args, path, gargs, t):
+    ty = re.match(r'core::num::<impl ' + INT, path).group(1)
+    return K(INT_RANGES[ty][0 if path.endswith('min_value') else 1], ty)
+
+
+@model(r'core::option::Option::<T>::(unwrap_or|unwrap_or_default)')
+def m_unwrap_or(I, st, fr, args, path, gargs, t):
+    v = args[0]
+    if v.variant == 1:
+        return v.fields[0]
+    if path.endswith('unwrap_or'):
+        return args[1]
+    raise Stop('unwrap_or_default')
+
+
+@model(r'core::option::Option::<T>::(ok_or)')
+def m_ok_or(I, st, fr, args, path, gargs, t):
+    v = args[0]
+    if v.variant == 1:
+        return Agg(RESULT, 0, (v.fields[0],))
+    return Agg(RESULT, 1, (args[1],))
+
+
+@model(r'core::option::Option::<T>::(and_then|map_or|map_or_else|unwrap_or_else|ok_or_else|filter|is_some_and|or_else)')
+def m_opt_closure(I, st, fr, args, path, gargs, t):
+    name = path.rsplit('::', 1)[1]
+    v = args[0]
+    if name == 'and_then':
+        if v.variant == 0:
+            return none()
+        return I.push_closure(st, fr, args[1], [v.fields[0]], t['dest'], t['target'])
+    if name == 'unwrap_or_else':
+        if v.variant == 1:
+            return v.fields[0]
+        return I.push_closure(st, fr, args[1], [], t['dest'], t['target'])
+    if name == 'ok_or_else':
+        if v.variant == 1:
+            return Agg(RESULT, 0, (v.fields[0],))
+        return I.push_closure(st, fr, args[1], [], t['dest'], t['target'], on_return=lambda I_, st_, r: Agg(RESULT, 1, (r,)))
+    if name == 'map_or':
+        if v.variant == 0:
+            return args[1]
+        return I.push_closure(st, fr, args[2], [v.fields[0]], t['dest'], t['target'])
+    if name == 'or_else':
+        if v.variant == 1:
+            return v
+        return I.push_closure(st, fr, args[1], [], t['dest'], t['target'])
+    raise Stop('Option::%s' % name)
+
+
+@model(r'core::result::Result::<T, E>::(ok|err|is_ok|is_err|unwrap_or)')
+def m_result_simple(I, st, fr, args, path, gargs, t):
+    name = path.rsplit('::', 1)[1]
+    v = deref(I, st, args[0])
+    if name == 'ok':
+        return some(v.fields[0]) if v.variant == 0 else none()
+    if name == 'err':
+        return some(v.fields[0]) if v.variant == 1 else none()
+    if name == 'is_ok':
+        return K(int(v.variant == 0), 'bool')
+    if name == 'is_err':
+        return K(int(v.variant == 1), 'bool')
+    return v.fields[0] if v.variant == 0 else args[1]
+
+
+@model(r'core::result::Result::<T, E>::(map|map_err|and_then|unwrap_or_else)')
+def m_result_closure(I, st, fr, args, path, gargs, t):
+    name = path.rsplit('::', 1)[1]
+    v = args[0]
+    if name == 'map':
+        if v.variant == 1:
+            return v
+        return I.push_closure(st, fr, args[1], [v.fields[0]], t['dest'], t['target'], on_return=lambda I_, st_, r: Agg(RESULT, 0, (r,)))
+    if name == 'map_err':
+        if v.variant == 0:
+            return v
+        return I.push_closure(st, fr, args[1], [v.fields[0]], t['dest'], t['target'], on_return=lambda I_, st_, r: Agg(RESULT, 1, (r,)))
+    if name == 'and_then':
+        if v.variant == 1:
+            return v
+        return I.push_closure(st, fr, args[1], [v.fields[0]], t['dest'], t['target'])
+    if v.variant == 0:
+        return v.fields[0]
+    return I.push_closure(st, fr, args[1], [v.fields[0]], t['dest'], t['target'])
+
+
+@model(r'core::result::Result::<T, E>::(unwrap|expect)')
+def m_result_unwrap(I, st, fr, args, path, gargs, t):
+    v = args[0]
+    if v.variant == 0:
+        return v.fields[0]
+    raise PanicExc('unwrap-err', {'fn': path})
+
+
+@model(r'core::mem::(replace|take)')
+def m_mem_replace(I, st, fr, args, path, gargs, t):
+    r = args[0]
+    old = deref(I, st, r)
+    if path.endswith('take'):
+        raise Stop('mem::take')
+    tf = I.frame_of(st, r.frame)
+    tf.L[r.local] = I.updated(st, tf, tf.L.get(r.local), list(r.proj), args[1])
+    return old
+
+
+@model(r'core::cmp::Ord::(max|min|clamp)')
+def m_ord_provided(I, st, fr, args, path, gargs, t):
+    name = path.rsplit('::', 1)[1]
+    if all(isinstance(a, Int) for a in args):
+        if name == 'clamp':
+            raise Stop('clamp')
+        d = padd(args[0].p, args[1].p, -1)
+        idx = st.decide(d, [NONPOS, POS])
+        if name == 'min':
+            return args[0] if idx == 0 else args[1]
+        return args[1] if idx == 0 else args[0]
+    raise Stop('Ord::%s on non-integers' % name)
+
+
+@model(r'core::ops::function::(FnOnce::call_once|FnMut::call_mut|Fn::call)')
+def m_fn_call(I, st, fr, args, path, gargs, t):
+    f = args[0]
+    tup = args[1]
+    cargs = list(tup.fields) if isinstance(tup, Agg) else []
+    if isinstance(f, Ref):
+        f = deref(I, st, f)
+    return I.push_closure(st, fr, f, cargs, t['dest'], t['target'])
+
+
+@model(r'core::hint::(black_box|assert_unchecked|unreachable_unchecked)|core::intrinsics::(likely|unlikely|cold_path)')
+def m_hints(I, st, fr, args, path, gargs, t):
+    if path.endswith('unreachable_unchecked'):
+        raise Infeasible()
+    return args[0] if args else UNIT
+
+
+def _euclid(I, st, op, a, b, ty):
+    """div_euclid / rem_euclid from the truncating pair: r < 0 -> r + |b|, q -/+ 1"""
+    q = I.divrem(st, 'Div', a, b, ty)
+    r = I.divrem(st, 'Rem', a, b, ty)
+    neg = st.decide(r.p, [NEG, NONNEG]) == 0
+    if not neg:
+        return q if op.startswith('div') else r
+    bpos = st.decide(b.p, [NEG, POS]) == 1
+    if op.startswith('div'):
+        return I.mk(st, ty, padd(q.p, pconst(1), -1 if bpos else 1))
+    return I.mk(st, ty, padd(r.p, b.p, 1 if bpos else -1))
+
+
+@model(r'core::num::<impl ' + INT + r'>::(div_euclid|rem_euclid)')
+def m_euclid(I, st, fr, args, path, gargs, t):
+    m = re.match(r'core::num::<impl ' + INT + r'>::(div_euclid|rem_euclid)', path)
+    ty, op = m.group(1), m.group(2)
+    a, b = args
+    if 0 in st.sign(b.p):
+        if st.decide(b.p, [ZERO, NONZERO]) == 0:
+            raise PanicExc('DivisionByZero', {'fn': path})
+    return _euclid(I, st, op, a, b, ty)
+
+
+@model(r'core::slice::<impl \[T\]>::get')
+def m_slice_get(I, st, fr, args, path, gargs, t):
+    v = deref(I, st, args[0])
+    idx = args[1]
+    if isinstance(v, Agg) and v.kind == 'array' and isinstance(idx, Int):
+        n = len(v.fields)
+        inb = st.decide(padd(idx.p, pconst(n), -1), [NEG, NONNEG]) == 0
+        if not inb:
+            return none()
+        lo, hi = st.itv(idx)
+        if lo == hi:
+            el = v.fields[lo]
+        else:
+            els = v.fields[max(lo, 0):min(hi, n - 1) + 1]
+            if not all(isinstance(e_, Int) for e_ in els):
+                raise Stop('slice get of non-integers with symbolic index')
+            el = st.fresh(els[0].ty, min(e_.lo for e_ in els), max(e_.hi for e_ in els), 'elem')
+        from .absint import Frame
+        key = ('elem', len(st.pframes), id(el))
+        st.pframes[key] = Frame(None, None, {0: el})
+        return some(Ref(key, 0, ()))
+    raise Stop('slice get on %r' % (v,))
+
+
+@model(r'core::option::Option::<&T>::(copied|cloned)|core::option::Option::<&mut T>::(copied|cloned)')
+def m_opt_copied(I, st, fr, args, path, gargs, t):
+    v = args[0]
+    if v.variant == 0:
+        return none()
+    return some(deref(I, st, v.fields[0]))
